@@ -275,3 +275,29 @@ pub fn with_huge_buffer<R, F: FnOnce(&mut [u8]) -> R>(f: F) -> Option<R> {
 pub fn with_huge_buffer<R, F: FnOnce(&mut [u8]) -> R>(_f: F) -> Option<R> {
     None
 }
+
+/// Byte-order specifications written by a *user* of the crate: `EndianParse` is a public trait whose integer readers
+/// are provided methods, so a downstream type only supplies `from_ei_data` and `is_little` and inherits the rest.
+/// Decoding through such a type must be what the built-in specs give.
+#[derive(Clone, Copy, Debug, Default, PartialEq, Eq)]
+pub struct UserBig;
+#[derive(Clone, Copy, Debug, Default, PartialEq, Eq)]
+pub struct UserLittle;
+
+impl elf::endian::EndianParse for UserBig {
+    fn from_ei_data(ei_data: u8) -> Result<Self, elf::parse::ParseError> {
+        if ei_data == elf::abi::ELFDATA2MSB { Ok(UserBig) } else { Err(elf::parse::ParseError::UnsupportedElfEndianness(ei_data)) }
+    }
+    fn is_little(self) -> bool {
+        false
+    }
+}
+
+impl elf::endian::EndianParse for UserLittle {
+    fn from_ei_data(ei_data: u8) -> Result<Self, elf::parse::ParseError> {
+        if ei_data == elf::abi::ELFDATA2LSB { Ok(UserLittle) } else { Err(elf::parse::ParseError::UnsupportedElfEndianness(ei_data)) }
+    }
+    fn is_little(self) -> bool {
+        true
+    }
+}
